@@ -112,6 +112,16 @@ def collect(project, err=None, scenarios=None):
     obs["res"] = res
     obs["ledger"] = ledger
     obs["used"] = used
+    # the project's own slot -> instant map for every booked slot (C01: slots must not overlap on the clock)
+    booked = sorted({s for byres in ledger.values() for slots in byres.values() for s in slots})
+    sd = {}
+    for s in booked + [s + 1 for s in booked]:
+        if s not in sd:
+            try:
+                sd[s] = project.idxToDate(s)
+            except Exception as e:  # noqa
+                sd[s] = f"EXC:{type(e).__name__}"
+    obs["slotdates"] = sd
     return obs
 
 
